@@ -421,7 +421,10 @@ def winding_rules(rep, prog):
         if len(seen) != 1:
             raise common.Infra("C07.F6: is_backface does not decide by a single sign test (%d comparisons)" % len(seen))
         op, v = seen[0]
-        p = S.to_poly(v)
+        try:
+            p = S.to_poly(v)
+        except S.NotPolynomial as e:
+            raise common.Infra("C07.F6: the quantity whose sign is_backface tests is not a polynomial of the vertex positions (%s)" % e)
         if op in ("Lt", "Le"):
             p = {m: -c for m, c in p.items()}
         return p
@@ -438,17 +441,23 @@ def winding_rules(rep, prog):
 
 
 def check_config(rep, prog):
-    winding_rules(rep, prog)
-    fb = TargetImpl(prog, FB_RASTERIZE, True)
-    cb = TargetImpl(prog, BUF_RASTERIZE, False)
-    c1 = flag_rules(rep, prog, fb, "Framebuf::rasterize")
-    c2 = flag_rules(rep, prog, cb, "<Buf as Target>::rasterize")
-    rep.count("colour_stores", c1[0] + c2[0])
-    rep.count("depth_stores", c1[1])
-    rep.count("o_counters", c1[2] + c2[2])
-    fills, heads = cull_rules(rep, prog)
-    stats_rules(rep, prog, fills, heads)
-    addassign_rules(rep, prog)
+    rep.guard(winding_rules, rep, prog)
+
+    def targets():
+        fb = TargetImpl(prog, FB_RASTERIZE, True)
+        cb = TargetImpl(prog, BUF_RASTERIZE, False)
+        c1 = flag_rules(rep, prog, fb, "Framebuf::rasterize")
+        c2 = flag_rules(rep, prog, cb, "<Buf as Target>::rasterize")
+        rep.count("colour_stores", c1[0] + c2[0])
+        rep.count("depth_stores", c1[1])
+        rep.count("o_counters", c1[2] + c2[2])
+    rep.guard(targets)
+
+    def culling():
+        fills, heads = cull_rules(rep, prog)
+        stats_rules(rep, prog, fills, heads)
+    rep.guard(culling)
+    rep.guard(addassign_rules, rep, prog)
 
 
 def check(rep, args):
